@@ -32,8 +32,15 @@ def run(chk, replay=None):
     for rel, prefix, nss in (('equal-db', 'mydb', False), ('full', 'mydb.users', False), ('different', 'otherdb', False), ('different2', 'mydb.usersX', False), ('full+namespaces', 'mydb.users', True),
                              # configured values that only LOOK related to the line's namespace: compared as given, byte for byte, as a prefix
                              ('db-with-dot', 'mydb.', False), ('stem-with-dot', 'my.', False), ('coll-with-dot', 'mydb.users.', False), ('other-case', 'MyDB', False),
-                             ('blank-before', ' mydb', False), ('blank-after', 'mydb ', False), ('stem-dots', 'my..', False), ('slash', 'mydb/', False), ('star', 'mydb.*', False)):
-        cfg = Cfg(nums=True, nss=nss, eager=[prefix])
+                             ('blank-before', ' mydb', False), ('blank-after', 'mydb ', False), ('stem-dots', 'my..', False), ('slash', 'mydb/', False), ('star', 'mydb.*', False),
+                             # SEVERAL values (the flag may be repeated): the mode is on for a line iff SOME value is a prefix of its namespace - whatever their number, order,
+                             # nesting (one value a prefix of others) or repetition
+                             ('list-nested', ['mydb', 'mydb.carts', 'mydb.orders'], False), ('list-nested-reversed', ['mydb.orders', 'mydb.carts', 'mydb'], False),
+                             ('list-repeated', ['otherdb', 'mydb.users', 'mydb.users'], False), ('list-all-foreign', ['otherdb', 'mydb.usersX', 'zz', 'mydb.o.x'], False),
+                             ('list-many', ['a', 'b', 'mydb.o', 'mydb.u', 'zz', 'mydb.zz', 'mydb.orders.x'], False), ('list-only-orders', ['zz', 'mydb.orders', 'aa'], True)):
+        prefixes = prefix if isinstance(prefix, list) else [prefix]
+        prefix = ' | '.join(prefixes)
+        cfg = Cfg(nums=True, nss=nss, eager=prefixes)
         res = run_lines(cfg, lines)
         off = offs[nss]
         for (l, info), (io, mo), (fo, _) in zip(cases, res, off):
@@ -42,7 +49,7 @@ def run(chk, replay=None):
             case = {'prefix': prefix, 'redactNamespaces': nss, 'input': l.decode('utf-8', 'replace')[:2500]}
             if not isinstance(io, bytes): continue
             ns = 'mydb.' + info['coll']
-            applies = ns.startswith(prefix)
+            applies = any(ns.startswith(px) for px in prefixes)
             tin, tout = jtree.parse(l), jtree.parse(io)
             tm = jtree.parse(mo) if isinstance(mo, bytes) else None
             # projection: keys and '$'-strings and plan summary
